@@ -39,3 +39,13 @@ _case("x_try", a=Int(-6, 6), items=_L)
 _case("x_chain_cmp", a=_I, b=_I, c=_I)
 _case("x_seq_eq", xs=ListOf(Int(0, 2), max_len=3), ys=ListOf(Int(0, 2), max_len=3), k=Int(0, 3))
 _case("x_namedtuple", a=_I, b=_I, items=_L)
+_case("x_iadd_subscript", items=_L, v=Int(0, 5))
+_case("x_minmax_single", a=_I)
+
+from spec import xcheck_cases as _xc  # noqa: E402
+
+
+@contract(_K + "XBox.x_iadd_attr", property="XC", replayable=False)
+class _x_iadd_attr:
+    self_shape = Obj(_xc.XBox, dict(items=_L))
+    params = dict(v=Int(0, 5))
